@@ -402,3 +402,71 @@ func Closures(fn *ssa.Function) []*ssa.Function {
 	rec(fn)
 	return out
 }
+
+// Loop is a natural loop of a function's CFG.
+type Loop struct {
+	Header *ssa.BasicBlock
+	Body   map[*ssa.BasicBlock]bool // includes the header
+}
+
+// Loops computes the natural loops of fn (one per header, back edges merged).
+func Loops(fn *ssa.Function) []*Loop {
+	byHeader := map[*ssa.BasicBlock]*Loop{}
+	var order []*ssa.BasicBlock
+	for _, u := range fn.Blocks {
+		for _, h := range u.Succs {
+			if !h.Dominates(u) {
+				continue
+			}
+			l := byHeader[h]
+			if l == nil {
+				l = &Loop{Header: h, Body: map[*ssa.BasicBlock]bool{h: true}}
+				byHeader[h] = l
+				order = append(order, h)
+			}
+			// nodes that reach u without passing h
+			stack := []*ssa.BasicBlock{u}
+			for len(stack) > 0 {
+				x := stack[len(stack)-1]
+				stack = stack[:len(stack)-1]
+				if l.Body[x] {
+					continue
+				}
+				l.Body[x] = true
+				stack = append(stack, x.Preds...)
+			}
+		}
+	}
+	var out []*Loop
+	for _, h := range order {
+		out = append(out, byHeader[h])
+	}
+	return out
+}
+
+// InnermostLoop returns the smallest loop containing b (nil if none).
+func InnermostLoop(loops []*Loop, b *ssa.BasicBlock) *Loop {
+	var best *Loop
+	for _, l := range loops {
+		if l.Body[b] && (best == nil || len(l.Body) < len(best.Body)) {
+			best = l
+		}
+	}
+	return best
+}
+
+// ExitEdges returns the (from, to) edges leaving the loop, and the blocks of
+// the loop that end in a return.
+func (l *Loop) ExitEdges() (edges [][2]*ssa.BasicBlock) {
+	for b := range l.Body {
+		for _, s := range b.Succs {
+			if !l.Body[s] {
+				edges = append(edges, [2]*ssa.BasicBlock{b, s})
+			}
+		}
+		if len(b.Succs) == 0 {
+			edges = append(edges, [2]*ssa.BasicBlock{b, nil})
+		}
+	}
+	return
+}
